@@ -97,6 +97,23 @@ Definition ucase_spec_ok (c : ucase) : bool :=
              match snd pr with Some q => seg_prefix (uc_target c) q | None => true end) (uc_links c) &&
   uc_meta_ok c.
 
+(* claimed on EVERY unpack case (inside and outside D) *)
+Definition ucase_links_claimed (c : ucase) : bool :=
+  names_avoid_links (uc_entries c) && no_links_below (uc_target c) (uc_init c).
+
+Definition ucase_spec2_ok (c : ucase) : bool :=
+  negb (ucase_links_claimed c) || links_lexically_inside (uc_target c) (uc_obs c).
+
+(* claimed on EVERY unpack case: no new regular file outside the target (since fix c7e8b5e1 a file
+   is only written when its resolved parent is the target or below it, path-wise) *)
+Definition ucase_spec3_ok (c : ucase) : bool :=
+  negb (existsb (fun pn : path * node =>
+                   match snd pn with
+                   | NFile _ _ => negb (seg_prefix (uc_target c) (fst pn)) &&
+                                  negb (match lookup (uc_init c) (fst pn) with Some n => node_eqb n (snd pn) | None => false end)
+                   | _ => false
+                   end) (uc_obs c)).
+
 Definition ucase_in_D (c : ucase) : bool :=
   entries_in_D (uc_entries c) && phys_dir (uc_init c) [] (uc_target c) && links_safe (uc_target c) (uc_init c) &&
   segs_eqb (csegs (uc_dir c)) (uc_target c) && beq (clean (uc_dir c)) (uc_dir c).
